@@ -43,6 +43,10 @@ def run(F, rep, tier):
     snapshot(F, rep, T)
     import c01
     c01.irp_late_read(F, rep, T, rule="SNAPSHOT")
+    # the runtime's higher-order helpers (map, fold, for_each ..) re-enter user code: their own temporaries must not be
+    # shared between activations while a callback runs
+    import c18
+    c18.global_leak(rep, c18.Lua(F.read("sylt-compiler/src/preamble.lua")))
 
 
 def defines_of(T, ops):
